@@ -1,6 +1,6 @@
 """Sidecar contracts for /repo/bisturi (never edits the repository)."""
 
-ALL_MODULES = ['c_fragments', 'c_structural', 'c_field', 'c_packet', 'c_descriptor', 'c_purity', 'c_deferred', 'c_roundtrip']
+ALL_MODULES = ['c_fragments', 'c_structural', 'c_field', 'c_packet', 'c_descriptor', 'c_purity', 'c_deferred', 'c_roundtrip', 'c_codegen']
 
 _COMMON_TRUST = [
     'builtin/library contracts of DESIGN.md 2.5-2.6 (assumed; cross-checked against CPython by pyvc/crosscheck.py, bounded)',
@@ -76,6 +76,25 @@ PROPERTIES = {
                      'relative positioning: Move.unpack depends on offset and innermost-pkt-pos only (its contract); reference="begins" is excluded by the statement'],
     ),
     'C03': dict(level='translation_validation', functions=[], special_driver='pyvc/check_c03.py'),
+    'C15': dict(
+        level='proof',
+        functions=['codegen:CodeGenerator.generate_code'],
+        native_probe='env_probe',
+        trusted_base=['ASSUMED environment contracts (pyvc/envmodel.py): os.path.exists / os.remove / os.makedirs / open(w) / write / SourceFileLoader.load_module '
+                      '(bytecode reused iff its recorded (mtime, size) stamp equals the source stamp; a module already in sys.modules is re-executed in place, '
+                      'names defined earlier survive; __cached__) / hashlib.sha1 collision-free / path and formatting functions deterministic; '
+                      'cross-checked natively on every run by pyvc/env_probe.py part A (bounded)',
+                      'what executing a generated module text defines (cookie, pack_impl iff pack code, unpack_impl iff unpack code) - assumed about the text '
+                      'produced by the dropped prefix; the behaviour of those functions is C03'],
+        assumptions=['PARTIAL FUNCTION: only the tail of CodeGenerator.generate_code after the last assignment of unpack_code is under contract (cut mechanically '
+                     'on every run); the prefix that builds pack_code / unpack_code / import_code is dropped and replaced by the syntactic prefix-shape obligations',
+                     'HonestCache: every file and cached bytecode under __pkts__ was written by an earlier completed run of this function (for any declaration); '
+                     'torn, foreign or concurrently modified files are the subject of C16 (not applicable)',
+                     'the pack_impl / unpack_impl attributes of a packet class are plain functions',
+                     'the two generated code strings are self-delimiting (the hash of their concatenation determines both)',
+                     'file-system operations succeed (writable cache directory); thread interleavings and other processes running concurrently are C16'],
+        explanation='per-call contract with an inductive invariant over the cache state: histories of definitions are covered by quantifying over all HonestCache states',
+    ),
     'C09': dict(
         level='proof',
         functions=['deferred:_defer_method.<lambda#0>', 'deferred:_defer_method.<lambda#1>', 'deferred:_defer_method.<lambda#2>',
@@ -238,6 +257,17 @@ MANIFEST_TEXT = {
              '(falsy values included); exec_compiled_expr evaluates on a private copy of the operand stack and writes nothing else (no state shared between evaluations). '
              'BOUNDED stand-in, labelled as such: the end-to-end meaning (compile_expr + exec_compiled_expr == eager python expression, same exceptions) is checked by the run-time twin on seeded random trees.',
         note='compile_expr and _defer_operations_of are not under contract (recursive closure-building code outside the VC generator); the bounded twin is not counted in obligations/discharged.'),
+    'C15': dict(
+        text='Proof, for every state of the cache directory, of the bytecode cache and of sys.modules that a history of completed earlier definitions (of any same-named '
+             'classes, any options, in this or earlier processes, same size and timestamp included, bytecode caching on or off) can leave behind: the real tail of '
+             'CodeGenerator.generate_code (cookie, lookup, stale-bytecode removal, rewrite, reload, install) raises nothing, installs for each direction that is switched on '
+             'and not overridden exactly the function defined by the code generated now, installs nothing for a direction that is off, and leaves the cache in a state of '
+             'the same kind (inductive invariant) - so a module cached for another declaration is never used and reuse of a matching module changes nothing.',
+        note='The operating system and the import system are ASSUMED contracts over ghost state (file contents as free terms, (mtime,size) stamps that may coincide, '
+             'bytecode reuse by stamp, re-execution into an existing module namespace, collision-free sha1), cross-checked natively on every run (bounded probe, which also '
+             'replays definition histories on the real builder and gives concrete failing histories). Only the tail of the function is under contract (partial function, cut '
+             'mechanically); torn / foreign files, crashes and concurrent processes are C16.',
+        technique='contract-based deductive verification of the real function tail (VCs from the python ast, z3/cvc5) under assumed environment contracts; bounded native probe as cross-check'),
     'C13': dict(
         text='Proof of the frame (modifies) clause and the freshness clauses of every pack / unpack / init function under contract: each writes only slots of its own packet argument, freshly allocated objects '
              'and (pack) the fragments argument; shared field objects are not written after compilation; objects stored into slots are fresh or immutable or supplied by the caller; pack leaves every field value unchanged. '
@@ -321,10 +351,6 @@ MANIFEST_TEXT = {
 }
 
 NOT_APPLICABLE = {
-    'C15': 'the property is about what SourceFileLoader.load_module / the bytecode cache / sys.modules / the file system do with files written by '
-           'earlier definitions; a contract for the tail of CodeGenerator.generate_code would only restate the property on top of ASSUMED contracts for '
-           'os, open, importlib (source-vs-bytecode selection by mtime and size, re-execution into an existing module namespace): the deciding content '
-           'would sit in unvalidated environment assumptions, not in verified code. No validated environment contract is within reach here, so no claim is made (DESIGN.md 6).',
     'C16': 'quantifies over crash points of a writer process and interleavings of the file operations of several processes; contract-based verification of '
            'sequential code has no handle on another process or on a crash between two system calls except an assumed rely/havoc model of the file system '
            'and importer, which could not be validated in this round (DESIGN.md 6); the defects expected there (K16a-c of DESIGN.md 4.C16) are therefore not decided.',
